@@ -299,6 +299,9 @@ def replay_bp(job):
 _JUDGE = re.compile(r'^<<"JUDGE", (\d+), "(\w+)">>', re.M)
 
 
+JOPTS: list = []
+
+
 def judge(observations):
     """SpansTrace.tla evaluates the clauses on every observation. -> (list of verdicts, tlc result)"""
     if not observations:
@@ -308,7 +311,7 @@ def judge(observations):
     try:
         with open(path, "w") as f:
             json.dump(observations, f)
-        r = run_tlc("SpansTrace", "cfg/SpansTrace.cfg", workers=4, timeout=1500, env={"TRACE_FILE": path})
+        r = run_tlc("SpansTrace", "cfg/SpansTrace.cfg", workers=4, timeout=1500, env={"TRACE_FILE": path}, java_opts=JOPTS)
         verdict = {int(m.group(1)) - 1: m.group(2) for m in _JUDGE.finditer(r.out)}
         if len(verdict) != len(observations):
             raise MachineryError(f"SpansTrace.tla judged {len(verdict)} of {len(observations)} observations:\n" + r.out[-2000:])
@@ -374,7 +377,11 @@ def run(tier: str) -> int:
     jobs = {}
     warnings.simplefilter("ignore")     # the message of a warn-mode warning is still formatted before it is dropped
 
+    # short runs: the C1 compiler only and few GC threads (JVM start-up and JIT dominate them); long runs: the full JIT
+    JOPTS[:] = ["-XX:TieredStopAtLevel=1", "-XX:ParallelGCThreads=2"] if quick else ["-XX:ParallelGCThreads=4"]
+
     def add(name, module, cfg, **kw):
+        kw.setdefault("java_opts", list(JOPTS))
         jobs[name] = (module, cfg, kw)
 
     results, span_out, err_out = {}, None, {}
